@@ -542,6 +542,10 @@ def check_bytes_key(ctx, rng, key, ser, var):
         # empty and tiny payloads (e.g. a count byte of zero)
         for tiny in (b"", b"\x00", b"\x00\x00", b"\x00\x00\x00\x00", b"\x01"):
             payload_laws(ctx, key, label, ser, block, tiny, "tiny", own=False)
+        # the small payloads every format has: nothing, "zero entries", a lone count / flag byte
+        for p in (b"\x00", b"\x00\x00", b"\x00" * 4, b"\x01", b"\xff", b"\x00\x01", b"\x01\x00"):
+            ctx.count("tiny_payloads_tried")
+            payload_laws(ctx, key, label, ser, block, p, "tiny", own=False)
         # fuzz: mutations of self-produced payloads and random bytes
         n_fuzz = ctx.pick(40, 2000)
         for i in range(n_fuzz):
